@@ -6,7 +6,6 @@ import (
 	"path/filepath"
 	"regexp"
 	"strings"
-	"sync"
 
 	"verif/internal/core"
 	"verif/internal/fcx"
@@ -270,8 +269,6 @@ func runC09(r *core.Run, tier string) {
 		os.RemoveAll(d)
 	})
 	var accepted []int
-	var mu sync.Mutex
-	_ = mu
 	nAccept, nReject := 0, 0
 	perCtx := map[string]int64{}
 	for i, c := range cases {
